@@ -109,6 +109,22 @@ def run(ck, prog, tier, load):
     ck.anchor("C05-c", len(feeds), 1, "feed_data call sites in the dispatcher")
     for b, bb, t in feeds:
         ck.ob("C05-c.feed-site", b.npath.split("::")[-1], b is pr, b, bb, "request-body bytes are fed only from poll_request (behind can_read)", nontrivial=False)
+    # the back-pressure flag must be recomputed where the queue GROWS (producer side), else can_read stays true
+    fd = prog.one(r"^actix_http::h1::payload::Inner::feed_data$")
+    FI = r"\.actix_http::h1::payload::Inner\."
+    pushes_fd = [bb for bb, t in fd.calls(r"VecDeque.*::push_back$")]
+    nrw = []
+    for (bd, bb, s2, e) in writes_of_field(prog, FI + "need_read$", ["actix_http"]):
+        if bd is fd:
+            c = norm_cmp(e)
+            if c and c[0] == "Lt" and c[3] is True and e_has_field(c[1], FI + "len$") and e_has_const(c[2], r"payload::MAX_BUFFER_SIZE$"):
+                nrw.append(bb)
+    ok = bool(pushes_fd) and bool(nrw) and all(fd.must_pass_after(pb, fd.returns(), nrw)[0] or any(fd.dominates(w, pb) for w in nrw) for pb in pushes_fd)
+    # and the length it compares was updated with this chunk
+    lenw = [bb for (bd, bb, s2, e) in writes_of_field(prog, FI + "len$", ["actix_http"]) if bd is fd]
+    ok = ok and bool(lenw) and all(any(fd.dominates(l, w) or l == w for l in lenw) for w in nrw)
+    ck.ob("C05-c.producer-updates-backpressure", "Inner::feed_data", ok, fd, nrw[0] if nrw else (pushes_fd[0] if pushes_fd else None),
+          "feeding a chunk recomputes need_read = len < MAX_BUFFER_SIZE after adding the chunk's length (otherwise a handler that does not poll lets the queue grow with whatever the peer sends)")
     # need_read flag semantics is C07-d; the constant:
     # ---- response bytes buffered ahead of the socket ------------------------------
     presp = disp(prog, "poll_response")
